@@ -259,3 +259,77 @@ def edge_access_programs(rng):
             out.append(scenario(sid, chunks, cpu(a=0x12, b=0x34, c=0x56, d=0x78, e=0x9A, h=0xC1, l=0x00, sp=spv, pc=0x100), 1, cart=cart))
             sid += 1
     return out
+
+
+# ------------------------------------------------------------ random blocks
+UNDEFINED = {0xD3, 0xDB, 0xDD, 0xE3, 0xE4, 0xEB, 0xEC, 0xED, 0xF4, 0xFC, 0xFD}
+BLOCK_END = ({0x10, 0x76, 0xF3, 0xFB, 0xC3, 0xE9, 0xCD, 0xC9, 0xD9, 0x18} | {0x20, 0x28, 0x30, 0x38}
+             | {0xC0, 0xC8, 0xD0, 0xD8} | {0xC2, 0xCA, 0xD2, 0xDA} | {0xC4, 0xCC, 0xD4, 0xDC}
+             | {0xC7 + 8 * i for i in range(8)})
+
+def ilen(op):
+    if op == 0xCB or op == 0x10: return 2
+    if op in (0x01, 0x11, 0x21, 0x31, 0x08, 0xC3, 0xCD, 0xEA, 0xFA) or op in (0xC2, 0xCA, 0xD2, 0xDA, 0xC4, 0xCC, 0xD4, 0xDC): return 3
+    if op in (0x06, 0x0E, 0x16, 0x1E, 0x26, 0x2E, 0x36, 0x3E, 0x18, 0x20, 0x28, 0x30, 0x38, 0xE0, 0xF0, 0xE8, 0xF8,
+              0xC6, 0xCE, 0xD6, 0xDE, 0xE6, 0xEE, 0xF6, 0xFE): return 2
+    return 1
+
+BODY_OPS = [op for op in range(256) if op not in UNDEFINED and op not in BLOCK_END]
+POINTERS = [0x0000, 0x3FFF, 0x4000, 0x7FFF, 0x8000, 0x9FFF, 0xA000, 0xBFFF, 0xC000, 0xCFFF, 0xD000, 0xDFFF, 0xE000, 0xFDFF,
+            0xFE00, 0xFE9F, 0xFEA0, 0xFEFF, 0xFF00, 0xFF04, 0xFF05, 0xFF07, 0xFF0F, 0xFF40, 0xFF41, 0xFF44, 0xFF45, 0xFF46,
+            0xFF7F, 0xFF80, 0xFFFE, 0xFFFF, 0x0001, 0x0002, 0xC123, 0xD456, 0xFF90]
+
+def rand_instr(rng, op=None):
+    if op is None: op = rng.choice(BODY_OPS)
+    n = ilen(op)
+    if op == 0xCB: return [0xCB, rng.randrange(256)]
+    if op in (0xEA, 0xFA, 0x08) and rng.randrange(3):
+        a = rng.choice(POINTERS); return [op, a & 0xFF, a >> 8]
+    if op in (0xE0, 0xF0) and rng.randrange(2):
+        return [op, rng.choice([0x00, 0x01, 0x02, 0x04, 0x05, 0x06, 0x07, 0x0F, 0x40, 0x41, 0x44, 0x45, 0x46, 0x47, 0x80, 0xFE, 0xFF])]
+    return [op] + [rng.randrange(256) for _ in range(n - 1)]
+
+def random_block_scenario(sid, rng, maxlen=32):
+    body = []
+    for _ in range(rng.randint(0, maxlen - 1)):
+        body += rand_instr(rng)
+    term = rng.choice(sorted(BLOCK_END))
+    tcode = rand_instr(rng, term)
+    if term == 0x10: tcode = [0x10, 0x00]
+    code = body + tcode
+    where = rng.randrange(8)
+    L = len(code)
+    base = {0: 0x0150, 1: 0x0100, 2: 0x3FFF - L + 1, 3: 0x4000, 4: 0x7FFF - L + 1, 5: 0x4000 - len(body) if body else 0x3000,
+            6: 0x0000, 7: rng.randrange(0x200, 0x7000)}[where]
+    base = max(0, min(base, 0x8000 - L))
+    regs = cpu(a=rng.randrange(256), f=rng.randrange(16) * 16, sp=rng.choice(POINTERS), pc=base)
+    for rr in (("b", "c"), ("d", "e"), ("h", "l")):
+        v = rng.choice(POINTERS) if rng.randrange(4) else rng.randrange(65536)
+        regs[rr[0]] = v >> 8; regs[rr[1]] = v & 0xFF
+    iw = [(0xFFFF, rng.choice([0, 0x1F, 0x05])), (0xFF0F, rng.choice([0, 0, 0x04, 0x1F]))]
+    if rng.randrange(3) == 0: iw.append((0xFF07, rng.choice([4, 5, 6, 7])))
+    # a few data bytes the block may read
+    for _ in range(6):
+        a = rng.choice(POINTERS)
+        if 0x8000 <= a < 0xFF00 or a >= 0xFF80: iw.append((a, rng.randrange(256)))
+    return scenario(sid, [(base, code)], regs, 1, mode="block", ime=rng.choice(["Disabled", "Enabled"]),
+                    init_writes=iw, cart=(0, 0, 2), romfill=rng.choice([0x00, 0xFF, 0x76]))
+
+def random_blocks(n, rng, start_id=4000000, maxlen=32):
+    return [random_block_scenario(start_id + i, rng, maxlen) for i in range(n)]
+
+
+def straddle_programs():
+    """C06(d): an instruction whose bytes straddle the end of a fetch region."""
+    out = []
+    sid = 5000000
+    # two-byte LD A,n with the opcode at the last byte of: ROM bank 0, work RAM bank 0, work RAM, high RAM
+    for base, label in ((0x3FFF, "rom0-end"), (0xCFFF, "wram0-end"), (0x7FFF, "romx-end")):
+        if base < 0x8000:
+            chunks = [(base, [0x3E, 0x42, 0x00, 0x18, 0xFE])] if base != 0x7FFF else [(base, [0x3E])]
+            out.append(scenario(sid, chunks, cpu(pc=base), 1, cart=(0, 0, 2)))
+        else:
+            iw = [(base, 0x3E), (base + 1, 0x42), (base + 2, 0x00)]
+            out.append(scenario(sid, [(0x100, [0x00])], cpu(pc=base), 1, cart=(0, 0, 2), init_writes=iw))
+        sid += 1
+    return out
